@@ -35,7 +35,7 @@ use vcore::pt::idx;
 pub const HB_PERIOD_MS: i64 = 200;
 pub const HEAL_ROUNDS: u32 = 200;
 /// deliveries allowed in one case (a message storm ends the case; the oracle judges what was presented)
-pub const DELIVERY_BOUND: u64 = 400_000;
+pub const DELIVERY_BOUND: u64 = 50_000;
 pub const TICKS_MS: [i64; 8] = [0, 1, 50, 199, 200, 201, 400, 1000];
 
 pub const W_PREFIX: [u8; 12] = [1; 12];
@@ -716,6 +716,7 @@ pub struct Outcome {
     pub any_best_effort: bool,
     /// a best-effort reader was owed a fragmented sample (C05 completeness demand applied)
     pub be_frag_due: bool,
+    pub deliveries: u64,
 }
 
 thread_local! {
@@ -817,6 +818,7 @@ pub fn run_with(sc: &Scenario, inject: Option<(&[Dg], usize, usize)>) -> Outcome
     out.flags = w.flags.clone();
     out.nontrivial = nontrivial_rule(prop, &w.flags);
     out.datagrams = w.net.log.borrow().len();
+    out.deliveries = w.deliveries;
     out.be_frag_due = w.be_must.values().any(|m| !m.is_empty());
     out.presented = w.readers.iter().map(|r| r.presented.iter().map(|p| p.sn).collect()).collect();
     if r.is_err() {
